@@ -39,3 +39,6 @@ pub fn parse_rust(code: &str) -> Vec<LogRefEntry>
 
     parser::code_parser::find_references(CodeLanguage::Rust, code, &config)
 }
+
+#[cfg(breadlog_verif)]
+pub mod verif_hooks;
